@@ -14,5 +14,7 @@ ok, msg = build.build_runner()
 print("runner:", ok, msg[-300:] if not ok else "")
 ok, binp, log = build.build_harness()
 print("harness:", ok, log[-2000:] if not ok else binp)
-sys.exit(0 if ok else 1)
+ok2, sbin, log2 = build.build_server_bin()
+print("server binary:", ok2, log2[-2000:] if not ok2 else sbin)
+sys.exit(0 if (ok and ok2) else 1)
 PY
